@@ -12,6 +12,7 @@ proof  : props/C07.v.
 oracle : set-based closure / name / complement / boundary-default check on the real Basis objects.
 """
 import ast
+import os
 
 import numpy as np
 
@@ -805,6 +806,12 @@ def run(ctx):
             ctx.log('disagreeing context:', cases[i][2][0], cases[i][2][1])
 
 
+def _try_all(ctx, head, defs):
+    """cheap pre-check that every class passes tclass_ok (one file); False -> find the failing ones class by class"""
+    ctx.write_gen('C07_TC_all', head + ''.join(defs.values()))
+    return ctx.coqc('gen/C07_TC_all.v', 600)[0]
+
+
 def trace_instances(ctx):
     """thorough tier: discharge the abstract hypothesis of C07_trace_support on group F's generated element list.
     Regenerates C09's polynomials and C03's trace certificates (their generators are used as libraries), compiles them in
@@ -852,10 +859,8 @@ def trace_instances(ctx):
                    f'{int(e.interior_dofs)} {int(rd.nnodes)} {lst(fac)} {lst(edg)}.\n'
                    f'Lemma {n}_c_ok : tclass_ok {n}_c = true.\nProof. vm_compute. reflexivity. Qed.\n')
     # all classes in one file first; only if that fails, class by class to name the ones that do not fit
-    ctx.write_gen('C07_TC_all', head + ''.join(defs.values()))
-    if ctx.coqc('gen/C07_TC_all.v', 600)[0]:
-        good = list(defs)
-    else:
+    good = list(defs)
+    if os.environ.get('C07_TC_PER_CLASS') or not _try_all(ctx, head, defs):
         for n in defs:
             ctx.write_gen(f'C07_TC_{n}', head + defs[n])
         res = ctx.coqc_many([f'gen/C07_TC_{n}.v' for n in defs], timeout=300, jobs=4)
